@@ -10,4 +10,24 @@ PROPS = {
         "assumptions": ["std::time::Duration arithmetic (as_nanos, checked_sub) is as documented",
                         "get_slices with slice = 0 < total is outside the property (model: diverges; never executed)"],
     },
+    "C03": {
+        "props_module": "OcVerif.Props.C03",
+        "components": [{"name": "oq", "quick": 1500, "thorough": 150000, "nontrivial_labels": 3, "quick_shards": 8},
+                       {"name": "pq", "quick": 1000, "thorough": 100000, "nontrivial_labels": 3, "quick_shards": 8},
+                       {"name": "qconc", "quick": 60, "thorough": 3000, "nontrivial_labels": 1, "quick_shards": 4}],
+        "trusted": ["model files lean/OcVerif/Model/Queue/{Ordered,Plain,Run}.lean, lean/OcVerif/Model/Conc/LenCounter.lean",
+                    "crossbeam Injector / SkipMap and st3 Worker/Stealer are modelled as linearizable sequential objects",
+                    "qconc: real-thread runs sample schedules; the all-schedules claim is the Lean theorem C03_len_conc"],
+        "assumptions": ["each local queue handle is used by one thread at a time (owner discipline; see C01)",
+                        "rand::rng() steal start is resolved angelically: the model must match for some start < nlocals"],
+    },
+    "C04": {
+        "props_module": "OcVerif.Props.C04",
+        "components": [{"name": "oq", "quick": 1500, "thorough": 150000, "nontrivial_labels": 3, "quick_shards": 8},
+                       {"name": "pq", "quick": 1000, "thorough": 100000, "nontrivial_labels": 3, "quick_shards": 8}],
+        "trusted": ["model files lean/OcVerif/Model/Queue/{Ordered,Plain,Run}.lean",
+                    "every queue call runs in a forked child under a 3 s watchdog: a hang is an observed outcome",
+                    "crossbeam Steal::Retry loops are not modelled (lock-freedom of crossbeam is trusted)"],
+        "assumptions": ["sequential histories; concurrent reachability of a spinning state is covered by the loop bound holding from *every* state of the local map"],
+    },
 }
